@@ -7,6 +7,7 @@ compiles with raw=True, defer_init=True in the right positional slots and names 
 with the same key function ModuleLoader uses to find it; loading a module installs the
 environment into the module namespace before any template function can run and builds the
 template from the same namespace keys the generator emits (name, blocks, root, debug_info).
+Also: the fake package name is derived from id(self).  
 Not decided: output equality for all template sets.
 """
 
